@@ -370,6 +370,11 @@ def scope_world(rng) -> World:
         x2 = w.add_lexicon('x', '2', base=a1)
         fill_lexicon(w, x2, rng, rng.randint(1, 2), 1, ['', 'i4'])
         add_relations(w, x2, rng, rng.randint(0, 2), 0, 0)
+    if rng.random() < 0.5:
+        # an extension of the extension: its senses hang on entries / synsets of x:1
+        xx = w.add_lexicon('xx', '1', base=x)
+        fill_lexicon(w, xx, rng, rng.randint(1, 2), rng.randint(1, 2), ['', 'i4'])
+        add_relations(w, xx, rng, rng.randint(0, 2), rng.randint(0, 1), 0)
     if order < 0.8 and rng.random() < 0.5:
         # an extension of the LATER version of a (whose ids a:1 shares)
         z = w.add_lexicon('z', '1', base=a2)
